@@ -22,13 +22,14 @@
 (* re-created later resurrects a dead hash), PruneSlack = 2 (prune also    *)
 (* records of rounds ABOVE the prune version).                                         *)
 (***************************************************************************)
-EXTENDS Naturals, FiniteSets, Sequences, TLC
+EXTENDS Naturals, FiniteSets, Sequences, TLC, Json
 
 CONSTANTS Keys,        \* subset of 0..3
           Vals,
           MaxVer,      \* rounds 1..MaxVer
           MaxOps,      \* operations per round
-          OriginInId, PruneSlack
+          OriginInId, PruneSlack,
+          GenDepth     \* 0: design mode; > 0: emit every behaviour of GenDepth actions as a scenario for the executor
 
 Nil == [k |-> "N"]
 None == "none"
@@ -60,15 +61,15 @@ Upd(root, key, val, v) ==
       na == IF lo = 0 THEN MkInner(nl, R(a), v) ELSE MkInner(L(a), nl, v)
   IN  IF hi = 0 THEN MkInner(na, R(root), v) ELSE MkInner(L(root), na, v)
 
-VARIABLES store, deadRec, roots, cur, nops, pruning, prunedUpTo, lastVer,
+VARIABLES store, deadRec, roots, cur, nops, pruning, prunedUpTo, lastVer, hist,
           floor   \* highest version a prune was ever started for: roots below it are given up
 
-vars == <<store, deadRec, roots, cur, nops, pruning, prunedUpTo, lastVer, floor>>
+vars == <<store, deadRec, roots, cur, nops, pruning, prunedUpTo, lastVer, floor, hist>>
 
 NoRound == [ver |-> 0, root |-> Nil, news |-> {}, deads |-> {}, saved |-> FALSE]
 
 Init == /\ store = {} /\ deadRec = <<>> /\ roots = <<>> /\ cur = NoRound /\ nops = 0
-        /\ pruning = 0 /\ prunedUpTo = 0 /\ lastVer = 0 /\ floor = 0
+        /\ pruning = 0 /\ prunedUpTo = 0 /\ lastVer = 0 /\ floor = 0 /\ hist = <<>>
 
 FnPut(f, k, v) == [x \in (DOMAIN f) \cup {k} |-> IF x = k THEN v ELSE f[x]]
 FnDelSet(f, S) == [x \in (DOMAIN f) \ S |-> f[x]]
@@ -152,10 +153,20 @@ Crash ==
   /\ pruning' = 0 /\ prunedUpTo' = 0
   /\ UNCHANGED <<store, deadRec, lastVer, floor>>
 
+A(name, k, v, pv) == [a |-> name, k |-> k, v |-> v, pv |-> pv]
+Log(r) == IF GenDepth = 0 THEN hist' = hist
+          ELSE /\ Len(hist) < GenDepth /\ hist' = Append(hist, r)
+               /\ (IF Len(hist') < GenDepth THEN TRUE ELSE PrintT(<<"VERIF_HIST", ToJson([aops |-> hist'])>>))
+
 Next ==
-  \/ StartRound \/ SaveBatch \/ RecordDead \/ PruneDeleteBatch \/ PruneDropRecords \/ Crash
-  \/ \E k \in Keys : (\E v \in Vals : Op(k, v)) \/ Op(k, None)
-  \/ \E pv \in 1..MaxVer : StartPrune(pv)
+  \/ StartRound /\ Log(A("start", 0, "", 0))
+  \/ SaveBatch /\ Log(A("savebatch", 0, "", 0))
+  \/ RecordDead /\ Log(A("recorddead", 0, "", 0))
+  \/ PruneDeleteBatch /\ Log(A("prunedelete", 0, "", 0))
+  \/ PruneDropRecords /\ Log(A("prunedrop", 0, "", 0))
+  \/ Crash /\ Log(A("crash", 0, "", 0))
+  \/ \E k \in Keys : (\E v \in Vals : Op(k, v) /\ Log(A("op", k, v, 0))) \/ (Op(k, None) /\ Log(A("op", k, "", 0)))
+  \/ \E pv \in 1..MaxVer : StartPrune(pv) /\ Log(A("startprune", 0, "", pv))
 
 Spec == Init /\ [][Next]_vars
 
